@@ -19,18 +19,19 @@ Kinds == IF Port = 53 THEN {"dnsjunk", "dnsresp", "bin"} ELSE {"tlsfull", "http"
 Later == {"more", "big"}            \* follow-up segments: 100 B / 70 000 B
 ServerKinds == {"s-small", "s-big"}
 
-VARIABLES phase, up, down, cEof, sEof, hist
-vars == <<phase, up, down, cEof, sEof, hist>>
-Init == phase = "idle" /\ up = <<>> /\ down = <<>> /\ cEof = FALSE /\ sEof = FALSE /\ hist = <<>>
+VARIABLES phase, up, down, cEof, sEof, slow, hist
+vars == <<phase, up, down, cEof, sEof, slow, hist>>
+\* slow: the path to the destination accepts only a little at a time (small socket buffers): writes complete in several parts
+Init == phase = "idle" /\ up = <<>> /\ down = <<>> /\ cEof = FALSE /\ sEof = FALSE /\ slow \in BOOLEAN /\ hist = <<>>
 
 H(ev, k, ph) == hist' = Append(hist, [ev |-> ev, k |-> k, phase |-> ph])      \* ph: the phase the event happens in
 CW(k) == /\ ~cEof
          /\ IF phase = "idle" THEN k \in Kinds /\ phase' = "dialling" ELSE k \in Later /\ phase' = phase
-         /\ up' = Append(up, k) /\ H("cw", k, phase) /\ UNCHANGED <<down, cEof, sEof>>
-Gate == phase = "dialling" /\ phase' = "relaying" /\ H("gate", "", phase) /\ UNCHANGED <<up, down, cEof, sEof>>
-SW(k) == phase = "relaying" /\ ~sEof /\ down' = Append(down, k) /\ H("sw", k, phase) /\ UNCHANGED <<phase, up, cEof, sEof>>
-SC == phase = "relaying" /\ ~sEof /\ sEof' = TRUE /\ H("sc", "", phase) /\ UNCHANGED <<phase, up, down, cEof>>
-CC == phase # "idle" /\ ~cEof /\ cEof' = TRUE /\ H("cc", "", phase) /\ UNCHANGED <<phase, up, down, sEof>>
+         /\ up' = Append(up, k) /\ H("cw", k, phase) /\ UNCHANGED <<down, cEof, sEof, slow>>
+Gate == phase = "dialling" /\ phase' = "relaying" /\ H("gate", "", phase) /\ UNCHANGED <<up, down, cEof, sEof, slow>>
+SW(k) == phase = "relaying" /\ ~sEof /\ down' = Append(down, k) /\ H("sw", k, phase) /\ UNCHANGED <<phase, up, cEof, sEof, slow>>
+SC == phase = "relaying" /\ ~sEof /\ sEof' = TRUE /\ H("sc", "", phase) /\ UNCHANGED <<phase, up, down, cEof, slow>>
+CC == phase # "idle" /\ ~cEof /\ cEof' = TRUE /\ H("cc", "", phase) /\ UNCHANGED <<phase, up, down, sEof, slow>>
 
 Next == /\ Len(hist) < MaxEvents
         /\ \/ \E k \in Kinds \cup Later : CW(k)
@@ -42,5 +43,5 @@ Spec == Init /\ [][Next]_vars
 ServerSpeaksWhenConnected == (down # <<>> \/ sEof) => phase = "relaying"
 \* histories worth a real-time replay: a segment arrives while the dial is in flight
 Interesting == \E i \in DOMAIN hist : hist[i].ev = "cw" /\ i > 1 /\ hist[i].phase = "dialling"
-Emit == (Len(hist) = MaxEvents /\ Interesting) => PrintT(<<"BEHAVIOUR", ToJson([port |-> Port, hist |-> hist])>>)
+Emit == (Len(hist) = MaxEvents /\ Interesting) => PrintT(<<"BEHAVIOUR", ToJson([port |-> Port, slow |-> slow, hist |-> hist])>>)
 =============================================================================
